@@ -185,12 +185,12 @@ Lemma ts_ok_a : forall (c : lcfg) (seq0 bits : Z) (fs : tree) (p : putreq) (r : 
   let cf := mkSconf (l_id c) w (pr_dst p) w seq0 (bits / 8) mode large (r_crc r) in
   pr_names p = Some (sn, dn) -> lookup fs sn = Some (File d) ->
   (bits = 8 \/ bits = 16 \/ bits = 32) -> 0 <= seq0 < 2 ^ bits ->
-  1 <= seg ->
+  1 <= seg -> 6 <= derived ->
   exists s2,
     transaction_start (st1 c p r fs seq0 bits mode clo SS_TRANSACTION_START) = (s2, Ok tt) /\
     InvA c p r fs d cf seg clo (l_id c, seq0) 0 (s2 <| s_step := SS_SENDING_METADATA |>).
 Proof.
-  intros c seq0 bits fs p r sn dn d mode clo w large derived seg cf Hn Hl Hb Hs Hseg.
+  intros c seq0 bits fs p r sn dn d mode clo w large derived seg cf Hn Hl Hb Hs Hseg Hd6.
   assert (Hd : 1 <= derived).
   { unfold seg in Hseg. destruct (r_max_seg r); lia. }
   destruct p as [dst dstw pm pc pn pmsg]. cbn in Hn, w, cf. subst pn.
@@ -202,9 +202,10 @@ Proof.
   { destruct Hb as [Hb|[Hb|Hb]]; subst bits; reflexivity. }
   unfold transaction_start.
   destruct (zlen d =? 0) eqn:Ez.
-  - pose proof Ez as Ez'. apply Z.eqb_eq in Ez'. rewrite Ez' in Hd. cbn in Hd.
+  - pose proof Ez as Ez'. apply Z.eqb_eq in Ez'. rewrite Ez' in Hd, Hd6. cbn in Hd, Hd6.
     repeat (progress (sx; rewrite ?Hl, ?Ez, ?E2, ?E3;
                       rewrite ?mfsl_ok by (unfold hdr_len, fss_len, crc_len; cbn; lia);
+                      rewrite ?eof_fits_pl by (unfold hdr_len, fss_len, crc_len; cbn; lia);
                       unfold fs_file_exists, exists_, fs_file_size)).
     unfold InvA, Inv. rewrite Ez'. eexists. split; [reflexivity|]. unfold set; cbn.
     split; [|split; [apply clean_cons; [reflexivity|reflexivity|apply clean_nil]|split; reflexivity]].
@@ -215,6 +216,7 @@ Proof.
   - pose proof Ez as Ez'. apply Z.eqb_neq in Ez'.
     repeat (progress (sx; rewrite ?Hl, ?Ez, ?E2, ?E3;
                       rewrite ?mfsl_ok by (unfold hdr_len, fss_len, crc_len; cbn; lia);
+                      rewrite ?eof_fits_pl by (unfold hdr_len, fss_len, crc_len; cbn; lia);
                       unfold fs_file_exists, exists_, fs_file_size)).
     unfold InvA, Inv. eexists. split; [reflexivity|]. unfold set; cbn.
     split; [|split; [apply clean_cons; [reflexivity|reflexivity|apply clean_nil]|split; reflexivity]].
@@ -235,15 +237,15 @@ Lemma first_call_a : forall (c : lcfg) (seq0 bits : Z) (fs : tree) (p : putreq) 
   get_remote (l_remotes c) (pr_dst p) = Some r ->
   pr_names p = Some (sn, dn) -> lookup fs sn = Some (File d) ->
   (match pr_mode p with Some m => m | None => r_mode r end) = ACKED ->
-  (bits = 8 \/ bits = 16 \/ bits = 32) -> 0 <= seq0 < 2 ^ bits -> 1 <= seg ->
+  (bits = 8 \/ bits = 16 \/ bits = 32) -> 0 <= seq0 < 2 ^ bits -> 1 <= seg -> 6 <= derived ->
   exists s1 s3,
     put_request p (src_fresh c seq0 bits fs) = (s1, Ok true) /\
     pump s1 = (s3, Ok [PMetadata (hdr_of cf TOWARDS_RECEIVER) clo (r_cktype r) (zlen d) (Some (sn, dn))
                          (match pr_msgs p with Some l => l | None => [] end)]) /\
     InvA c p r fs d cf seg clo (l_id c, seq0) 0 s3.
 Proof.
-  intros c seq0 bits fs p r sn dn d w large derived seg cf clo Hr Hn Hl Hmode Hb Hs Hseg.
-  destruct (ts_ok_a c seq0 bits fs p r sn dn d ACKED clo Hn Hl Hb Hs Hseg) as [s2 [T1 T2]].
+  intros c seq0 bits fs p r sn dn d w large derived seg cf clo Hr Hn Hl Hmode Hb Hs Hseg Hd6.
+  destruct (ts_ok_a c seq0 bits fs p r sn dn d ACKED clo Hn Hl Hb Hs Hseg Hd6) as [s2 [T1 T2]].
   fold w large cf in T2. fold derived in T2. fold seg in T2.
   destruct (md_pump_a c p r fs d cf seg clo (l_id c, seq0) sn dn Hn _ T2) as [s3 [M1 M2]].
   eexists. exists s3. split; [|split; [|exact M2]].
@@ -874,7 +876,7 @@ Lemma acked_perfect_link :
   (match pr_mode p with Some m => m | None => r_mode rs end) = ACKED ->
   1 <= r_ack_limit rs -> 1 <= r_ack_limit rd -> 1 <= r_nak_limit rd -> 0 < tick ->
   0 < r_ack_ms rs -> 0 < r_ack_ms rd ->
-  (bits = 8 \/ bits = 16 \/ bits = 32) -> 0 <= seq0 < 2 ^ bits -> 1 <= seg ->
+  (bits = 8 \/ bits = 16 \/ bits = 32) -> 0 <= seq0 < 2 ^ bits -> 1 <= seg -> 6 <= derived ->
   (r_cktype rs = CK_CRC32 \/ r_cktype rs = CK_CRC32C \/ r_cktype rs = CK_NULL \/ r_cktype rs = CK_MODULAR) ->
   bytes_ok data = true ->
   l_id cd = pr_dst p -> get_remote (l_remotes cd) (l_id cs) = Some rd -> length dn = 1%nat ->
@@ -887,7 +889,7 @@ Lemma acked_perfect_link :
     existsb fault_event (e_log (d_env (y_dst (fst res)))) = false.
 Proof.
   intros cs cd seq0 bits p rs rd sn dn data tick w large derived seg
-         Hrs Hn Hsn Hdn Hmsgs Hmode Hls Hld Hnl Htick Hacks Hackd Hbits Hseq Hseg Hck Hbytes Hid Hrd Hlen Hfh Hfs Hfd.
+         Hrs Hn Hsn Hdn Hmsgs Hmode Hls Hld Hnl Htick Hacks Hackd Hbits Hseq Hseg Hd6 Hck Hbytes Hid Hrd Hlen Hfh Hfs Hfd.
   destruct dn as [|x [|x' dn']]; try discriminate Hlen.
   set (fss := [(sn, File data)]).
   assert (Hlook : lookup fss sn = Some (File data)).
@@ -896,7 +898,7 @@ Proof.
   destruct (ck_agree (r_cktype rs) data seg Hck Hseg) as (cks & C1 & C2).
   set (cf := mkSconf (l_id cs) w (pr_dst p) w seq0 (bits / 8) ACKED large (r_crc rs)).
   set (clo := match pr_closure p with Some b => b | None => r_closure rs end).
-  destruct (first_call_a cs seq0 bits fss p rs sn [x] data Hrs Hn Hlook Hmode Hbits Hseq Hseg)
+  destruct (first_call_a cs seq0 bits fss p rs sn [x] data Hrs Hn Hlook Hmode Hbits Hseq Hseg Hd6)
     as (s1 & s3 & P1 & P2 & HI).
   rewrite Hmsgs in P2.
   assert (Hdst : sc_dst cf = l_id cd) by (symmetry; exact Hid).
